@@ -164,6 +164,7 @@ def run_program(prog, environ, start_response, rec):
         f = TrackedFile(data, rec) if delivery == "fw" else NoSeekFile(data, rec)
         rec.produced += data
         rec.is_file = True
+        rec.file_obj = f  # keep it alive: only an explicit close() may count
         return environ["wsgi.file_wrapper"](f, prog.get("block_size", 32768))
     raise ValueError(delivery)
 
